@@ -26,5 +26,9 @@ pub fn all() -> Vec<Box<dyn Prop>> {
 }
 
 pub fn by_id(id: &str) -> Option<Box<dyn Prop>> {
+    // raw decoders of the coverage-guided tier (not properties of their own)
+    if id == "C03R" {
+        return Some(Box::new(c03::C03R));
+    }
     all().into_iter().find(|p| p.id() == id)
 }
